@@ -185,7 +185,23 @@ class Project:
             return None
 
         propagate_literals({m.name: (m.tree, m.imports) for m in self.modules.values()}, resolve_literal, resolve_dict)
+        from .normalize import unroll_table_loops
+
+        def table_lookup(modname):
+            def look(name, depth=0, modname=modname):
+                imp = self.modules[modname].imports.get(name)
+                if not imp or imp[1] is None or imp[0] not in self.modules or depth > 4:
+                    return None
+                tm = self.modules[imp[0]]
+                for st in tm.tree.body:
+                    tg = st.targets[0] if isinstance(st, ast.Assign) and len(st.targets) == 1 else (st.target if isinstance(st, ast.AnnAssign) else None)
+                    if isinstance(tg, ast.Name) and tg.id == imp[1] and isinstance(getattr(st, "value", None), (ast.Tuple, ast.List)):
+                        return st.value
+                return None
+            return look
+
         for m in self.modules.values():
+            unroll_table_loops(m.tree, table_lookup(m.name))  # N15: a loop over a small constant table is its rows
             normalize(m.tree)  # … and equivalent idioms in one spelling (sa/normalize.py); the text is untouched
             ast.fix_missing_locations(m.tree)
         for m in self.modules.values():
